@@ -276,6 +276,25 @@ pub async fn af_u64(x: u64) -> u64 {
     x + 1
 }
 
+pub mod na1 {
+    #[derive(Clone, Copy)]
+    pub struct Tag(pub u8);
+}
+pub mod na2 {
+    #[derive(Clone, Copy)]
+    pub struct Tag(pub u8);
+}
+#[inline(never)]
+pub async fn af_tag1(x: u8) -> na1::Tag {
+    BODY[7].fetch_add(1, SeqCst);
+    na1::Tag(x)
+}
+#[inline(never)]
+pub async fn af_tag2(x: u8) -> na2::Tag {
+    BODY[7].fetch_add(1, SeqCst);
+    na2::Tag(x)
+}
+
 /// C09, async half: every ordered pair of output types through async_func! x async_return!
 fn run_async_pairs() {
     panics::install_hook();
@@ -303,6 +322,9 @@ fn run_async_pairs() {
             pair!($t1, "bool", $fut, $ty1, true, bool);
             pair!($t1, "String", $fut, $ty1, String::from("s"), String);
             pair!($t1, "()", $fut, $ty1, (), ());
+            // two distinct types with the same name in different modules
+            pair!($t1, "na1::Tag", $fut, $ty1, na1::Tag(1), na1::Tag);
+            pair!($t1, "na2::Tag", $fut, $ty1, na2::Tag(1), na2::Tag);
         }};
     }
     row!("u32", a2(0), u32);
@@ -310,6 +332,8 @@ fn run_async_pairs() {
     row!("bool", bool_fn(&seven), bool);
     row!("String", a3(""), String);
     row!("()", unit_fn(&flag), ());
+    row!("na1::Tag", af_tag1(0), na1::Tag);
+    row!("na2::Tag", af_tag2(0), na2::Tag);
 }
 
 pub fn run(script: &str, out: &str) {
